@@ -207,3 +207,15 @@ def run(ctx) -> None:  # noqa: F811
                   + ": multi_output_blockwise declares one symbol per dimension, so the packed block has too few "
                     "dimensions and dask fails (or mis-assembles) when base axes are dropped", key_detail="rank")
     _inner_run_c01b(ctx)
+
+
+# ---- added after the seeded change C01-r3seed0: parameters read back are the parameters given
+_inner_run_c01c = run
+
+
+def run(ctx) -> None:  # noqa: F811
+    ctx.rule("R-RECON-ROUNDTRIP", recon.check_roundtrip.__doc__)
+    n = recon.check_roundtrip(ctx)
+    ctx.require(n >= 3, f"R-RECON-ROUNDTRIP judged only {n} (class, parameter) pairs")
+    _inner_run_c01c(ctx)
+
